@@ -432,6 +432,11 @@ func (p *parser) primary() Expr {
 	t := p.next()
 	switch t.k {
 	case "ident":
+		if t.v == "forall" || t.v == "exists" {
+			// a quantifier in operand position extends as far to the right as possible
+			p.i--
+			return p.formula()
+		}
 		return &EIdent{t.v}
 	case "int":
 		return &ELit{"int", t.v}
